@@ -111,6 +111,15 @@ def _operations() -> dict:
         "convert_to(q, q)": lambda q: convert_to(q, q),
         "evaluate_quantity(q)": lambda q: evaluate_quantity(q),
         "evaluate_expression(3*q)": lambda q: evaluate_expression(3 * q),
+        # the same entry points with their optional arguments (low precision, evaluation on)
+        "evaluate_quantity(q, n=3)": lambda q: evaluate_quantity(q, n=3),
+        "evaluate_quantity(q, n=50)": lambda q: evaluate_quantity(q, n=50),
+        "evaluate_expression(3*q, True, n=3)": lambda q: evaluate_expression(3 * q, True, n=3),
+        "evaluate_expression(q, evaluate=True)": lambda q: evaluate_expression(q, evaluate=True),
+        "q.evalf(3)": lambda q: q.evalf(3),
+        "N(2*q, 3)": lambda q: sp.N(2 * q, 3),
+        "convert_to(q, 1000*q)": lambda q: convert_to(q, 1000 * q),
+        "Quantity(q).scale_factor.evalf(3)": lambda q: Quantity(q).scale_factor.evalf(3),
         "q.subs / solve": lambda q: sp.solve(sp.Symbol("x") * q - 1, sp.Symbol("x")),
         "simplify(q + q)": lambda q: sp.simplify(q + q),
         "N(q)": lambda q: sp.N(q),
@@ -131,7 +140,7 @@ def operation_histories(consts: dict, ref: dict) -> list:
             except Exception:
                 r = None  # refusing is fine; corrupting the table is not
             msgs = _check_constant(n, q, ref["constants"][n])
-            if r is q and opname.startswith("Quantity("):
+            if r is q and opname.startswith(("Quantity(", "evaluate_quantity(")):
                 msgs.append(f"{opname} returned the catalogue object itself instead of a new quantity")
             out.append((opname, n, "; ".join(f"after {opname}: {m}" for m in msgs)))
         for n, q in sorted(consts.items()):
